@@ -29,7 +29,7 @@ type TypeD struct {
 // Col is a trait column: trait name, type token, family token of the Lean model.
 // Type tokens: string (untyped string constant), Str<n> (local `type Str<n> string`), int (untyped
 // int), Sm<n> (local int8), int16, time.Duration (through a renamed import), uint8, uint64,
-// Un<n> (local uint16), bool, rune (untyped rune constant; dynamic type int32).
+// Un<n> (local uint16), bool, rune (untyped rune constant; dynamic type int32, family s32).
 type Col struct {
 	Name string
 	Ty   string
@@ -50,6 +50,10 @@ func famOfTy(ty string) string {
 		return "s8"
 	case ty == "int16":
 		return "s16"
+	case ty == "rune":
+		// untyped rune constant: the MODEL classifies it (extractUnderlying in Model/Genum.lean:
+		// int64 family, width 32, since fix-C12-rune-trait)
+		return "k:untypedRune"
 	case ty == "uint8":
 		return "u8"
 	case ty == "uint64":
